@@ -703,6 +703,8 @@ class VMF:
         After this is called, the entity will no longer be exported.
         The object still exists, so it can be reused.
         """
+        if item is self.spawn:
+            return  # The worldspawn entity is always part of the map.
         try:
             self.entities.remove(item)
         except ValueError:
